@@ -389,6 +389,7 @@ func execSim(op Op, env *Env) *Outcome {
 	}
 	var run *simrt.Run
 	var d *simfs.Disk
+	var infos []simrt.TaskInfo
 	t0 := time.Now()
 	func() {
 		defer func() {
@@ -454,6 +455,9 @@ func execSim(op Op, env *Env) *Outcome {
 				out.Returned = true
 			})
 			run.Loop()
+			// snapshot the task states at final quiescence, before the deferred clean-up of the
+			// harness (cancel of its own context) can wake anything
+			infos = run.Infos()
 			out.CtxErr = ctx.Err()
 			if rdet != nil {
 				out.Races = rdet.reports()
@@ -471,7 +475,6 @@ func execSim(op Op, env *Env) *Outcome {
 		for k, v := range run.Probes {
 			out.Probes[k] += v
 		}
-		infos := run.Infos()
 		out.Tasks = len(infos)
 		for _, ti := range infos {
 			if ti.Panic != "" {
